@@ -36,6 +36,14 @@ class BuiltinMixin:
                 return z3.Or(*[one(s, v, x) for x in tn.elts])
             if isinstance(tn, ast.Call) and ast.unparse(tn) == "type(None)":
                 return v.t == VNone
+            # class given by a run-time value (self.event_class, a local variable): isinstance by the class lattice
+            dyn = (isinstance(tn, ast.Name) and tn.id in s.env) or (
+                isinstance(tn, ast.Attribute) and isinstance(tn.value, ast.Name) and tn.value.id in s.env)
+            if dyn:
+                rs = self.eval(tn, s.copy())
+                if len(rs) != 1 or rs[0].exc is not None:
+                    raise Untranslatable(f"isinstance against {ast.unparse(tn)}")
+                return z3.And(Val.is_ref(v.t), subcls(s.fld("__class__", Val.a(v.t)), rs[0].val.t))
             if not isinstance(tn, (ast.Name, ast.Attribute)):
                 raise Untranslatable(f"isinstance against {ast.unparse(tn)}")
             name = tn.id if isinstance(tn, ast.Name) else tn.attr
